@@ -1021,7 +1021,7 @@ def cli_params(rng, i, tier):
     workers = [None, 1, 2, 4, 8][(i // 4) % 5] if tier == 'quick' else rng.choice([None, None, 1, 2, 4, 8])
     # generation costs seconds per program: small sessions in the quick tier, the whole
     # range (skewed towards short sessions) in the thorough one
-    n = rng.randint(3, 10) if tier == 'quick' else int(3 + 37.99 * rng.random() ** 2.2)
+    n = rng.randint(3, 8) if tier == 'quick' else int(3 + 37.99 * rng.random() ** 2.2)
     return {'lang': lang, 'iterations': n, 'batch': rng.randint(1, 12), 'workers': workers,
             'transformations': rng.randint(0, 2), 'only_cp': rng.random() < 0.25,
             'keep_all': rng.random() < 0.3,
